@@ -21,4 +21,16 @@ def sortBy (key : α → Nat) : List α → List α
   | [] => []
   | x :: xs => insertBy key x (sortBy key xs)
 
+/-- insert `x` before the first element that does not precede it under `cmp` -/
+def insertCmp (cmp : α → α → Int) (x : α) : List α → List α
+  | [] => [x]
+  | y :: ys => if cmp x y ≤ 0 then x :: y :: ys else y :: insertCmp cmp x ys
+
+/-- Go: `slices.SortStableFunc(l, cmp)` — a stable sort by the three-way comparison `cmp`
+    (negative: before, zero: keep the input order).  Stable insertion sort; for a `cmp` that is a
+    total preorder every stable sorting algorithm computes this list. -/
+def sortStableFunc (cmp : α → α → Int) : List α → List α
+  | [] => []
+  | x :: xs => insertCmp cmp x (sortStableFunc cmp xs)
+
 end Corerad.Model
